@@ -318,6 +318,11 @@ pub enum Flavour {
     /// woken when the capacity returns, also when its own flush call freed it (the Sink contract:
     /// poll_ready -> Pending registers the task to be notified when it should be called again).
     FlushFrees,
+    /// socket-like, closer to a real framed socket than `Coupled`: bytes move only INSIDE a call
+    /// of poll_flush / poll_close / poll_ready-on-a-full-buffer. When such a call cannot finish
+    /// it registers the task; the environment's "the medium is writable again" only wakes that
+    /// task and grants credit - the task has to call again for anything to be transmitted.
+    Socket,
 }
 
 #[derive(Clone, Copy, Debug, PartialEq, Eq, Hash, serde::Serialize, serde::Deserialize)]
@@ -344,6 +349,8 @@ pub struct Core<I> {
     pub buf: VecDeque<Msg>,
     /// Coupled: how many items at the front of `buf` a flush has been requested for
     pub flush_requested: usize,
+    /// Flavour::Socket: how many buffered items the medium will take at the next flushing call
+    pub credits: usize,
     pub delivered: Vec<Msg>,
     pub wire: Vec<Msg>,
     pub inbox: VecDeque<InItem<I>>,
@@ -376,6 +383,7 @@ impl<I> Core<I> {
             cap,
             buf: VecDeque::new(),
             flush_requested: 0,
+            credits: 0,
             delivered: Vec::new(),
             wire: Vec::new(),
             inbox: VecDeque::new(),
@@ -446,6 +454,16 @@ impl<I> Core<I> {
     }
     /// environment: the medium drains the write buffer
     pub fn drain(&mut self) -> usize {
+        if self.flavour == Flavour::Socket {
+            // writable again: the waiting task is woken and has to call again
+            let n = self.flush_requested.min(self.buf.len());
+            self.flush_requested = 0;
+            self.credits = n;
+            if let Some(w) = self.ww.take() {
+                w.wake();
+            }
+            return n;
+        }
         // a socket-like transport only transmits what it was asked to flush
         let n = if self.flavour == Flavour::Coupled { self.flush_requested.min(self.buf.len()) } else { self.buf.len() };
         self.flush_requested = 0;
@@ -478,8 +496,25 @@ impl<I> Core<I> {
             }
         }
     }
+    /// Flavour::Socket: a flushing call transmits what the medium takes right now
+    fn push_credited(&mut self) {
+        while self.credits > 0 && !self.buf.is_empty() {
+            self.credits -= 1;
+            let m = self.buf.pop_front().unwrap();
+            self.log.push(Rec::PeerSaw {
+                side: self.side,
+                msg: m.clone(),
+            });
+            self.delivered.push(m);
+        }
+        if self.buf.is_empty() {
+            self.credits = 0;
+        }
+    }
     pub fn blocked(&self) -> bool {
-        if self.flavour == Flavour::Coupled {
+        if self.flavour == Flavour::Socket {
+            self.flush_requested > 0 && !self.buf.is_empty() && self.credits == 0
+        } else if self.flavour == Flavour::Coupled {
             self.flush_requested > 0 && !self.buf.is_empty()
         } else if self.flavour == Flavour::FlushFrees {
             // only the transport's own flush moves data
@@ -521,6 +556,14 @@ impl<S, I: ToMsg> Stream for MockTransport<S, I> {
     type Item = Result<I, io::Error>;
     fn poll_next(self: Pin<&mut Self>, cx: &mut Context<'_>) -> Poll<Option<Self::Item>> {
         let mut c = self.core.borrow_mut();
+        if c.eof_read {
+            // The Stream contract leaves polling past the end unspecified ("may panic, block
+            // forever, or cause other kinds of problems"); this transport takes the first option,
+            // as futures::stream::unfold does. tarpc fuses its transports, so it never gets here
+            // (seeded changes C09m / C10m removed the fuse on the server).
+            drop(c);
+            panic!("transport stream polled again after it returned Poll::Ready(None)");
+        }
         if c.faulty(Op::Next) {
             if c.fault.map(|f| f.eof).unwrap_or(false) {
                 c.eof_read = true;
@@ -566,6 +609,9 @@ impl<S: ToMsg, I> Sink<S> for MockTransport<S, I> {
         if c.faulty(Op::Ready) {
             c.rec(Op::Ready, Res::Err, None);
             return Poll::Ready(Err(mkerr("poll_ready")));
+        }
+        if c.flavour == Flavour::Socket && c.buf.len() >= c.cap {
+            c.push_credited();
         }
         let full = match c.flavour {
             Flavour::Always => false,
@@ -636,7 +682,10 @@ impl<S: ToMsg, I> Sink<S> for MockTransport<S, I> {
             c.rec(Op::Flush, Res::Err, None);
             return Poll::Ready(Err(mkerr("poll_flush")));
         }
-        if c.flavour == Flavour::Coupled && !c.buf.is_empty() {
+        if c.flavour == Flavour::Socket {
+            c.push_credited();
+        }
+        if matches!(c.flavour, Flavour::Coupled | Flavour::Socket) && !c.buf.is_empty() {
             c.flush_requested = c.buf.len();
             c.ww = Some(cx.waker().clone());
             c.rec(Op::Flush, Res::Pending, None);
@@ -656,7 +705,10 @@ impl<S: ToMsg, I> Sink<S> for MockTransport<S, I> {
             c.rec(Op::Close, Res::Err, None);
             return Poll::Ready(Err(mkerr("poll_close")));
         }
-        if c.flavour == Flavour::Coupled && !c.buf.is_empty() {
+        if c.flavour == Flavour::Socket {
+            c.push_credited();
+        }
+        if matches!(c.flavour, Flavour::Coupled | Flavour::Socket) && !c.buf.is_empty() {
             c.flush_requested = c.buf.len();
             c.ww = Some(cx.waker().clone());
             c.rec(Op::Close, Res::Pending, None);
